@@ -39,6 +39,8 @@ pub struct Finding {
     pub property: String,
     pub status: String,
     #[serde(default)]
+    pub also_properties: Vec<String>,
+    #[serde(default)]
     pub witness: Option<String>,
     #[serde(default)]
     pub what: String,
@@ -64,7 +66,7 @@ fn load_findings() -> Findings {
 fn open_keys(f: &Findings, prop: &str) -> BTreeSet<String> {
     f.findings
         .iter()
-        .filter(|x| x.status == "open" && x.property == prop)
+        .filter(|x| x.status == "open" && (x.property == prop || x.also_properties.iter().any(|p| p == prop)))
         .map(|x| x.id.clone())
         .collect()
 }
